@@ -243,6 +243,18 @@ theorem pull_clear_stop (s : Sess) (ht : s.tls = false) (w : Stop) (s' : Sess) (
       rw [hp] at h
       cases h
 
+theorem cutEvery_flatten (n : Nat) (b : Bs) : (cutEvery n b).flatten = b := by
+  fun_induction cutEvery n b with
+  | case1 b h => simp
+  | case2 b h ih => simp [ih, List.take_append_drop]
+
+theorem boundedReads_flatten (n : Nat) (cs : List Bs) : (boundedReads n cs).flatten = cs.flatten := by
+  induction cs with
+  | nil => rfl
+  | cons c cs ih =>
+    simp only [boundedReads, List.flatMap_cons, List.flatten_append, List.flatten_cons] at ih ⊢
+    rw [cutEvery_flatten, ih]
+
 /-- a tokeniser satisfying the contract (every byte is a unit): the contract is not vacuous -/
 def byteTokeniser : Tokeniser where
   next := fun b =>
